@@ -25,6 +25,13 @@ CHECKS = {
             "code before it counts", "3/C14"),
     "C18": ("TLC checks OnceEach / CausalOrder / VersionsFirst; the TLA+ observer evaluates the same operators plus late "
             "get_*() outcomes on real executions in both API flavours", "3/C18"),
+    "C19": ("Codes.tla over a frozen copy of the PGP word lists: TLC checks that each list is a bijection from bytes and that every "
+            "completion extends the typed prefix and is allocatable, and enumerates every typed prefix / short code string; the real "
+            "get_completions / choose_words / validate_code are run on every enumerated case; the code-entry protocol (one of "
+            "allocate/set/input, helper call orders) is model-checked on Wormhole.tla and replayed", "3/C19"),
+    "C20": ("Hints.tla: TLC enumerates every hint list of the abstract JSON-kind space with the attempts the spec requires and "
+            "permits; each case is concretised and fed to the real Transit (sender, receiver) and to a real dilation "
+            "Manager/Connector; no exception, dialled set within bounds, produced hints parse back to the same targets", "3/C20"),
 }
 
 
@@ -66,7 +73,12 @@ def main():
     print("MANIFEST.json: %d checks, %d not yet claimed" % (len(checks), len(na)))
 
 
-NOTES = {}
+NOTES = {
+    "C19": "the word lists in the spec are a frozen copy of the pinned commit; os.urandom is assumed uniform; TLC enumerates all "
+           "prefixes of all words for 2 (thorough: 3) word codes; code-entry schedules as for the mailbox checks",
+    "C20": "field values are abstracted to JSON kinds (str/int/float/bool/null/list/dict/missing) with a few concrete "
+           "representatives each; lists of length <= 2; top-level hints are JSON objects as the statement says",
+}
 NOT_YET = {}
 
 if __name__ == "__main__":
